@@ -19,7 +19,7 @@ def encode(prog):
     lens = []
     for ins in prog:
         k = ins["k"]
-        lens.append({"RT": 4, "PU": 2, "DEC": 1, "JNZ": 2, "JMP": 2, "LOOP": 2, "ST": 7, "ST4": 10, "LD": 5, "PATCH": 7}[k])
+        lens.append({"RT": 4, "PU": 2, "DEC": 1, "JNZ": 2, "JMP": 2, "LOOP": 2, "ST": 7, "ST4": 10, "LD": 5, "PATCH": 7, "PATCHS": 1}[k])
     offs = [0]
     for l in lens:
         offs.append(offs[-1] + l)
@@ -44,6 +44,8 @@ def encode(prog):
             out += b"\xc7\x05" + ins["a"].to_bytes(4, "little") + bytes([v, v + 1, v + 2, v + 3])
         elif k == "LD":
             out += b"\xa0" + ins["a"].to_bytes(4, "little")
+        elif k == "PATCHS":
+            out += b"\xaa"          # STOSB: [EDI] := AL, EDI += 1 (EDI is preset on the target immediate)
         elif k == "PATCH":
             out += b"\xc6\x05" + imm_addr(prog, offs, ins["s"]).to_bytes(4, "little") + bytes([ins["v"]])
     return bytes(out), offs
@@ -115,6 +117,10 @@ class Player(object):
         j.cpu.ECX = it["cnt"]
         j.cpu.ESP = STACK_TOP
         j.cpu.EBX = j.cpu.EDX = j.cpu.ESI = j.cpu.EDI = j.cpu.EBP = 0
+        j.cpu.df = 0
+        for x in self.prog:
+            if x["k"] == "PATCHS":
+                j.cpu.EDI = imm_addr(self.prog, self.offs, x["s"])
         j.cpu.zf = j.cpu.nf = j.cpu.pf = j.cpu.of = j.cpu.cf = j.cpu.af = 0
 
     def observe(self, crashed=""):
@@ -127,7 +133,8 @@ class Player(object):
         if self.item["stackok"] or self.repaired:
             a = STACK_TOP - 4
             while a >= esp and a >= STACK_BASE:
-                stack.append(int.from_bytes(j.vm.get_mem(a, 4), "little"))
+                v = int.from_bytes(j.vm.get_mem(a, 4), "little")
+                stack.append([v >> 16, v & 0xffff])
                 a -= 4
         window = []
         for a in self.item["window"]:
